@@ -313,20 +313,35 @@ func (w *c09World) proposalForgeries(victim *Node) []forged {
 	// smuggling: the genuine lists are kept, and a second entry with the leader's ADDRESS but the attacker's key is added
 	// (to the joiners, whose keys a member cannot check against its group record, or at the end of the remainers); the attacker
 	// signs claiming to be the leader. The sender's key must be taken from the genuine entry.
-	for _, where := range []string{"joining", "remaining-tail", "joining-head"} {
+	for _, where := range []string{"joining", "remaining-tail", "joining-head", "remaining-head", "leaving",
+		"joining+leader-entry", "remaining-head+leader-entry", "remaining-tail+leader-entry"} {
 		p := cloneP(w.proposal)
 		t := p.GetProposal()
 		dup := &pdkg.Participant{Address: w.leader.Addr, Key: w.outsider.Public.ToProto().Key, Signature: w.outsider.Public.Signature}
+		variant := where
+		if strings.HasSuffix(where, "+leader-entry") {
+			// the attacker is free to write all terms: the leader entry carries its key as well, and the threshold fits the longer list
+			where = strings.TrimSuffix(where, "+leader-entry")
+			t.Leader = dup
+			total := len(t.Remaining) + len(t.Joining) + 1
+			if min := uint32(total/2 + 1); t.Threshold < min {
+				t.Threshold = min
+			}
+		}
 		switch where {
 		case "joining":
 			t.Joining = append(t.Joining, dup)
 		case "joining-head":
 			t.Joining = append([]*pdkg.Participant{dup}, t.Joining...)
+		case "remaining-head":
+			t.Remaining = append([]*pdkg.Participant{dup}, t.Remaining...)
+		case "leaving":
+			t.Leaving = append([]*pdkg.Participant{dup}, t.Leaving...)
 		default:
 			t.Remaining = append(t.Remaining, dup)
 		}
 		p.Metadata = signAs(w.outsider, "c09", p, t, w.leader.Addr)
-		out = append(out, forged{name: "smuggle/leader-address-with-attacker-key-in-" + where, packet: p, exempt: victim == w.joiner, signed: true})
+		out = append(out, forged{name: "smuggle/leader-address-with-attacker-key-in-" + variant, packet: p, exempt: victim == w.joiner, signed: true})
 	}
 	// entitlement: a non-leader member proposes in its own name with its own valid signature, naming itself leader while the real
 	// leader stays a remainer (legal shape) -> allowed by the protocol (anybody remaining may lead): NOT a forgery, skipped.
